@@ -9,11 +9,31 @@
 #include "bitserializer/types/std/chrono.h"
 #include "bitserializer/types/std/optional.h"
 #include "bitserializer/types/std/memory.h"
+#include "bitserializer/types/std/pair.h"
+#include "bitserializer/types/std/tuple.h"
+#include "bitserializer/types/std/set.h"
+#include "bitserializer/types/std/array.h"
+#include "bitserializer/types/std/deque.h"
+#include "bitserializer/types/std/list.h"
+#include "bitserializer/types/std/atomic.h"
+#include <array>
+#include <atomic>
+#include <deque>
+#include <list>
+#include <memory>
+#include <set>
+#include <tuple>
 #include <chrono>
 #include <cstdint>
 #include <map>
 #include <optional>
 #include <variant>
+
+enum class VhColor { Red, Green, Blue };		// (the registration macro needs an unqualified type name)
+REGISTER_ENUM(VhColor, {
+	{ VhColor::Red, "Red" }, { VhColor::Green, "Green" }, { VhColor::Blue, "Blue" }
+})
+namespace vh { using Color = ::VhColor; }
 
 namespace vh {
 
@@ -125,8 +145,38 @@ std::string Canon(const std::chrono::time_point<TClock, TDur>& tp) { return Cano
 
 template <class T> std::string Canon(const std::vector<T>& v);
 template <class K, class V> std::string Canon(const std::map<K, V>& m);
-template <class T> std::string Canon(const std::optional<T>& v) { return v ? "[\"some\"," + Canon(*v) + "]" : std::string("[\"none\"]"); }
-template <class T> std::string Canon(const std::unique_ptr<T>& v) { return v ? "[\"some\"," + Canon(*v) + "]" : std::string("[\"none\"]"); }
+// further std types are reported as the abstract document value they are serialized as (see LoadScript!TypeAlias)
+template <class T> std::string Canon(const std::optional<T>& v) { return v ? Canon(*v) : std::string("[\"nil\"]"); }
+template <class T> std::string Canon(const std::unique_ptr<T>& v) { return v ? Canon(*v) : std::string("[\"nil\"]"); }
+template <class T> std::string Canon(const std::shared_ptr<T>& v) { return v ? Canon(*v) : std::string("[\"nil\"]"); }
+template <class T> std::string Canon(const std::atomic<T>& v) { return Canon(v.load()); }
+inline std::string Canon(const std::wstring& v)
+{
+	std::u32string cps;
+	if constexpr (sizeof(wchar_t) == 4) { for (wchar_t c : v) cps.push_back(static_cast<char32_t>(c)); }
+	else { std::u16string u; for (wchar_t c : v) u.push_back(static_cast<char16_t>(c)); cps = CpsFromUtf16(u); }
+	return "[\"str\"," + BytesJson(Utf8FromCps(cps)) + "]";
+}
+inline std::string Canon(const Color& v) { return std::string("[\"str\",") + BytesJson(v == Color::Red ? "Red" : v == Color::Green ? "Green" : "Blue") + "]"; }
+template <class TSeq> std::string CanonSeq(const TSeq& v)
+{
+	std::string o = "[\"arr\",[";
+	bool first = true;
+	for (const auto& e : v) { if (!first) o += ','; first = false; o += Canon(e); }
+	return o + "]]";
+}
+template <class T> std::string Canon(const std::set<T>& v) { return CanonSeq(v); }
+template <class T> std::string Canon(const std::deque<T>& v) { return CanonSeq(v); }
+template <class T> std::string Canon(const std::list<T>& v) { return CanonSeq(v); }
+template <class T, size_t N> std::string Canon(const std::array<T, N>& v) { return CanonSeq(v); }
+template <class A, class B> std::string Canon(const std::pair<A, B>& v)
+{
+	return "[\"map\",[[[\"str\"," + BytesJson("key") + "]," + Canon(v.first) + "],[[\"str\"," + BytesJson("value") + "]," + Canon(v.second) + "]]]";
+}
+template <class A, class B, class C> std::string Canon(const std::tuple<A, B, C>& v)
+{
+	return "[\"arr\",[" + Canon(std::get<0>(v)) + "," + Canon(std::get<1>(v)) + "," + Canon(std::get<2>(v)) + "]]";
+}
 
 template <class T> std::string Canon(const std::vector<T>& v)
 {
@@ -199,6 +249,17 @@ void WithType(const std::string& t, F&& f)
 	else if (t == "map_str_i32") f(static_cast<std::map<std::string, int32_t>*>(nullptr));
 	else if (t == "map_i32_str") f(static_cast<std::map<int32_t, std::string>*>(nullptr));
 	else if (t == "opt_i32") f(static_cast<std::optional<int32_t>*>(nullptr));
+	else if (t == "uptr_i32") f(static_cast<std::unique_ptr<int32_t>*>(nullptr));
+	else if (t == "sptr_str") f(static_cast<std::shared_ptr<std::string>*>(nullptr));
+	else if (t == "atomic_i32") f(static_cast<std::atomic<int32_t>*>(nullptr));
+	else if (t == "wstr") f(static_cast<std::wstring*>(nullptr));
+	else if (t == "enum_color") f(static_cast<Color*>(nullptr));
+	else if (t == "set_i32") f(static_cast<std::set<int32_t>*>(nullptr));
+	else if (t == "arr3_i32") f(static_cast<std::array<int32_t, 3>*>(nullptr));
+	else if (t == "deque_i32") f(static_cast<std::deque<int32_t>*>(nullptr));
+	else if (t == "list_str") f(static_cast<std::list<std::string>*>(nullptr));
+	else if (t == "pair_str_i32") f(static_cast<std::pair<std::string, int32_t>*>(nullptr));
+	else if (t == "tuple_i32_str_f64") f(static_cast<std::tuple<int32_t, std::string, double>*>(nullptr));
 	else { fprintf(stderr, "unknown target type %s\n", t.c_str()); exit(3); }
 }
 
@@ -236,7 +297,23 @@ template <class T> void FromCanon(const JVal& v, T& out)
 		const std::chrono::seconds d(SignedFrom(v[2][1], v[2][2]));
 		if constexpr (std::is_same_v<T, std::chrono::seconds>) out = d; else out = T(d);
 	}
-	else if constexpr (std::is_same_v<T, std::optional<int32_t>>) { if (std::string(v[0].GetString()) == "some") { int32_t x; FromCanon(v[1], x); out = x; } else out.reset(); }
+	else if constexpr (std::is_same_v<T, std::optional<int32_t>>) { if (std::string(v[0].GetString()) == "nil") out.reset(); else { int32_t x; FromCanon(v, x); out = x; } }
+	else if constexpr (std::is_same_v<T, std::unique_ptr<int32_t>>) { if (std::string(v[0].GetString()) == "nil") out.reset(); else { int32_t x; FromCanon(v, x); out = std::make_unique<int32_t>(x); } }
+	else if constexpr (std::is_same_v<T, std::shared_ptr<std::string>>) { if (std::string(v[0].GetString()) == "nil") out.reset(); else out = std::make_shared<std::string>(BytesFromJson(v[1])); }
+	else if constexpr (std::is_same_v<T, std::atomic<int32_t>>) { int32_t x; FromCanon(v, x); out.store(x); }
+	else if constexpr (std::is_same_v<T, std::wstring>) {
+		out.clear();
+		const auto cps = CpsFromUtf8(BytesFromJson(v[1]));
+		if constexpr (sizeof(wchar_t) == 4) { for (char32_t c : cps) out.push_back(static_cast<wchar_t>(c)); }
+		else { for (char16_t c : Utf16FromCps(cps)) out.push_back(static_cast<wchar_t>(c)); }
+	}
+	else if constexpr (std::is_same_v<T, Color>) { const std::string n = BytesFromJson(v[1]); out = n == "Red" ? Color::Red : n == "Green" ? Color::Green : Color::Blue; }
+	else if constexpr (std::is_same_v<T, std::set<int32_t>>) { out.clear(); for (auto& e : v[1].GetArray()) { int32_t x; FromCanon(e, x); out.insert(x); } }
+	else if constexpr (std::is_same_v<T, std::array<int32_t, 3>>) { size_t i = 0; for (auto& e : v[1].GetArray()) { if (i < 3) FromCanon(e, out[i++]); } }
+	else if constexpr (std::is_same_v<T, std::deque<int32_t>>) { out.clear(); for (auto& e : v[1].GetArray()) { int32_t x; FromCanon(e, x); out.push_back(x); } }
+	else if constexpr (std::is_same_v<T, std::list<std::string>>) { out.clear(); for (auto& e : v[1].GetArray()) out.push_back(BytesFromJson(e[1])); }
+	else if constexpr (std::is_same_v<T, std::pair<std::string, int32_t>>) { out.first = BytesFromJson(v[1][0][1][1]); FromCanon(v[1][1][1], out.second); }
+	else if constexpr (std::is_same_v<T, std::tuple<int32_t, std::string, double>>) { FromCanon(v[1][0], std::get<0>(out)); std::get<1>(out) = BytesFromJson(v[1][1][1]); FromCanon(v[1][2], std::get<2>(out)); }
 	else { fprintf(stderr, "FromCanon: unsupported type\n"); exit(3); }
 }
 template <class T> void FromCanon(const JVal& v, std::vector<T>& out)
